@@ -1,8 +1,19 @@
 import Tahoe.Immutable.LemmasRead
 import Tahoe.Immutable.Examples
 import Tahoe.Immutable.LemmasNodeQueue
+import Tahoe.Immutable.LemmasReaders
 /-! C04 — random-access and concurrent immutable reads (property theorems; helper lemmas live in
-    `Tahoe/Immutable/Lemmas*.lean`). -/
+    `Tahoe/Immutable/Lemmas*.lean`).
+
+## Coverage of the statement (properties.jsonl C04)
+
+| clause of the statement | theorem(s) for the model |
+|---|---|
+| reading any byte range of an immutable file returns exactly that slice of the plaintext | `read_slice` (CHK, through the segment loop: guessed/known segment size, retry, trimming) + `ctr_offset`, `ctr_stream_chunks` (decryption positioned at the offset); `read_slice_literal` (LIT) |
+| … clipped at end-of-file; ranges that start at or past the end return nothing; unspecified size | `read_slice` (`size = none`, any `offset`), `read_slice_literal` (explicit length formula) |
+| several reads of different ranges issued concurrently on the same file object each receive their own correct slice | safety: `concurrent_reads_safe` — for every number of readers and every schedule of segment deliveries (any reader may be handed any segment of the file at any time), every reader's output is a prefix of its own slice, equal to it once nothing remains wanted, and is a function of its own deliveries only; that the node hands out only genuine segments, to exactly the requesters: `concurrent_reads_independent_partial` (queue) + C01 `upload_download` (segment contents).  **Completion** (every live reader eventually gets all its deliveries) is liveness: **monitor only** here, C03/C46 |
+| cancelling or pausing one read does not disturb the others | `concurrent_reads_independent_partial` (1)(2): cancel removes only the canceller's request, pending requests always keep a fetch active; `concurrent_reads_safe` (independence: another reader's events do not change this reader's state; pause/resume change no reader's data state).  That the eventual-send plumbing between `process_blocks` and `_got_segment` is an instance of the schedules quantified over: **correspondence only** (scripted pause/resume/stop from inside and outside `write()` in harness/props/c04.py) |
+-/
 namespace Tahoe.C04
 open Tahoe.Immutable Tahoe.Immutable.Sizes Tahoe.Immutable.Pipeline
 
@@ -84,6 +95,46 @@ theorem read_slice_literal (data : List UInt8) (offset : Nat) (size : Option Nat
 
 example : litRead [1, 2, 3, 4, 5] 2 (some 10) = [3, 4, 5] ∧ litRead [1, 2, 3, 4, 5] 7 none = [] := by decide
 
+/-- `concurrent_reads_safe`: any number of readers of one file, each started for its own range
+    `[off0, off0+sz0)`, under *every* schedule of deliveries — an arbitrary list of events "reader `i` is
+    handed segment `s`", so any interleaving, any duplication, segments a reader never asked for (fetched
+    on behalf of others), wrong guesses; pause/resume events change no `(offset, size, out)` and stopping a
+    reader just ends its events.  Then for every reader `i`:
+    (safety)       what it has written so far, followed by what it still wants, is exactly its slice — so
+                   its output is always a prefix of its own slice, and is the whole slice once `size = 0`;
+    (independence) its state equals the state it would have had alone with only its own deliveries:
+                   no other reader's requests, deliveries, pauses or cancellation influence it. -/
+theorem concurrent_reads_safe (ct : List UInt8) (seg : Nat) (ranges : List (Nat × Nat))
+    (hr : ∀ r ∈ ranges, r.1 + r.2 ≤ ct.length) (events : List (Nat × Nat)) (i : Nat) (hi : i < ranges.length) :
+    let start := ranges.map (fun r => ({ offset := r.1, size := r.2, out := [] } : ReaderState))
+    ∃ st, (feedAll ct seg start events)[i]? = some st ∧
+      st.out ++ (ct.drop st.offset).take st.size = (ct.drop ranges[i].1).take ranges[i].2 ∧
+      (st.size = 0 → st.out = (ct.drop ranges[i].1).take ranges[i].2) ∧
+      st = feed ct seg { offset := ranges[i].1, size := ranges[i].2, out := [] }
+             ((events.filter (fun ev => ev.1 == i)).map (·.2)) := by
+  intro start
+  have hget : start[i]? = some { offset := ranges[i].1, size := ranges[i].2, out := [] } := by
+    simp [start, hi]
+  have hall := feedAll_getElem? ct seg events start i
+  rw [hget] at hall
+  simp only [Option.map_some] at hall
+  refine ⟨_, hall, ?_⟩
+  have hinv := feed_inv ct seg ranges[i].1 ranges[i].2 ((events.filter (fun ev => ev.1 == i)).map (·.2))
+    { offset := ranges[i].1, size := ranges[i].2, out := [] }
+    ⟨hr _ (List.getElem_mem hi), by simp⟩
+  refine ⟨hinv.2, fun h0 => ?_, rfl⟩
+  have := hinv.2
+  rw [h0] at this
+  simpa using this
+
+/-- two readers of a 10-byte file with 4-byte segments: reader 0 wants [1,7), reader 1 wants [5,10); a
+    schedule that interleaves them, duplicates a delivery and hands reader 1 a segment it cannot use yet -/
+example :
+    let ct : List UInt8 := [0, 1, 2, 3, 4, 5, 6, 7, 8, 9]
+    feedAll ct 4 [⟨1, 6, []⟩, ⟨5, 5, []⟩] [(1, 2), (0, 0), (1, 1), (0, 0), (1, 2), (0, 1), (1, 0)]
+      = [⟨7, 0, [1, 2, 3, 4, 5, 6]⟩, ⟨10, 0, [5, 6, 7, 8, 9]⟩] := by
+  decide
+
 /- Full statement (NOT proved; exercised by harness/props/c04.py with up to four scripted readers and
    seeded delivery orders):
      concurrent_reads_independent : for every number m of readers sharing one DownloadNode, every
@@ -91,10 +142,13 @@ example : litRead [1, 2, 3, 4, 5] 2 (some 10) = [3, 4, 5] ∧ litRead [1, 2, 3, 
      foolscap's eventual-send queue, so a reader may be stopped between `_extract_requests` and
      `_deliver`), and of pause / resume / stop events on any reader, every reader that is not stopped
      finishes with exactly its own slice, and a stopped reader has received a prefix of its slice.
-   What is missing for it: a small-step model of the eventual-send queue between `process_blocks` and
-   `Segmentation._got_segment` (in-flight deliveries, `Cancel.active`), the composition of m `segLoop`s
-   with the queue below, and a fairness/termination argument (C03/C46).  Proved here are the three
-   ingredients that make the composition go through. -/
+   Proved: the safety and independence half for every schedule (`concurrent_reads_safe` above, over the
+   over-approximate scheduler "any reader may be handed any genuine segment at any time") and the queue
+   facts below.  Still missing for the full statement: (a) liveness — every live reader is eventually
+   handed the segments it asks for (needs fairness of the eventual-send queue and of the servers: C03/C46);
+   (b) a refinement proof that every execution of the real plumbing (`process_blocks` → `eventually(_deliver)`
+   → `Cancel.active` check → `_got_segment`, `_retry_bad_segment`) is an instance of those schedules with
+   genuine segments — today tied by correspondence only. -/
 
 /-- `concurrent_reads_independent_partial`:
     (1) over every history of `get_segment` / delivery / cancel operations by any number of readers the
